@@ -142,9 +142,17 @@ func (mgrFamily) Exec(c *hc.Case) {
 			hasFactory = true
 			m.DefaultCircuitProperties = append(m.DefaultCircuitProperties, factory.CreateConfig)
 		} else {
-			m.DefaultCircuitProperties = append(m.DefaultCircuitProperties, func(string) circuit.Config { return d.Cfg.config() })
+			k := len(m.DefaultCircuitProperties)
+			m.DefaultCircuitProperties = append(m.DefaultCircuitProperties, func(name string) circuit.Config {
+				cfg := d.Cfg.config()
+				// a map-valued setting whose value depends on the circuit: each default layer contributes its own key
+				cfg.General.CustomConfig = map[interface{}]interface{}{fmt.Sprintf("default-%d", k): name}
+				return cfg
+			})
 		}
 	}
+	// the caller reuses ONE explicit CustomConfig map for every create (as code that builds a Config once does)
+	sharedCC := map[interface{}]interface{}{"explicit": "E"}
 	ids := map[*circuit.Circuit]int{}
 	byName := map[int]*circuit.Circuit{}
 	tags := map[string]bool{}
@@ -168,8 +176,12 @@ func (mgrFamily) Exec(c *hc.Case) {
 		switch o.K {
 		case "create":
 			var cfgs []circuit.Config
-			for _, e := range o.Explicit {
-				cfgs = append(cfgs, e.config())
+			for k, e := range o.Explicit {
+				cfg := e.config()
+				if k == 0 {
+					cfg.General.CustomConfig = sharedCC
+				}
+				cfgs = append(cfgs, cfg)
 			}
 			before := statsLive(o.Name)
 			cir, err := m.CreateCircuit(name, cfgs...)
@@ -221,6 +233,29 @@ func (mgrFamily) Exec(c *hc.Case) {
 				}
 				if want != ec {
 					c.Viol = append(c.Viol, hc.Violation{Clause: "a created circuit's settings are taken field by field from the explicit configs in argument order, then from DefaultCircuitProperties from last to first, then from the library defaults", Detail: fmt.Sprintf("got %+v want %+v", ec, want), AtOp: i})
+				}
+				// the map-valued setting: entries united, higher-precedence layers winning; per-circuit values stay per circuit
+				wantCC := map[interface{}]interface{}{}
+				if len(o.Explicit) > 0 {
+					wantCC["explicit"] = "E"
+				}
+				for k := range p.Defaults {
+					if !p.Defaults[k].Stats {
+						wantCC[fmt.Sprintf("default-%d", k)] = name
+					}
+				}
+				gotCC := eff.General.CustomConfig
+				same := len(gotCC) == len(wantCC)
+				for kk, vv := range wantCC {
+					if gotCC[kk] != vv {
+						same = false
+					}
+				}
+				if !same {
+					c.Viol = append(c.Viol, hc.Violation{Clause: "a created circuit's settings are taken field by field from the explicit configs in argument order, then from DefaultCircuitProperties from last to first, then from the library defaults", Detail: fmt.Sprintf("CustomConfig of circuit %s: got %v want %v (the caller's own explicit map is now %v)", name, gotCC, wantCC, sharedCC), AtOp: i})
+				}
+				if len(wantCC) > 1 {
+					tags["customconfig:layers"] = true
 				}
 				if len(layers) > 2 {
 					tags["layers:3+"] = true
